@@ -1,6 +1,6 @@
 #!/bin/sh
 # tools/verify_seed.sh <ID> <variant> [patchfile]: confirm a seeded change in a scratch worktree of /repo HEAD and store it
-ID="$1"; V="$2"; SRC=/tmp/seed/$ID/seed/$V; PATCH="${3:-$SRC/patch.diff}"
+ID="$1"; V="$2"; SRC=/tmp/seed/$ID/seed/$V; [ -d "$SRC" ] || SRC=/verif/seeded/$ID-$V; PATCH="${3:-$SRC/patch.diff}"
 WT=$(mktemp -d /tmp/sv.XXXXXX)/r
 git -C /repo worktree add -q "$WT" HEAD || exit 9
 cd "$WT"
@@ -14,7 +14,7 @@ echo "$ID-$V: pristine_demo_exit=$R0 tests='$T' patched_demo_exit=$R1"
 case "$T" in *"71 passed"*) ;; *) exit 1;; esac
 [ "$R0" = 0 ] && [ "$R1" != 0 ] || exit 1
 D=/verif/seeded/$ID-$V; mkdir -p "$D"
-cp /tmp/sv.$ID.$V.diff "$D/patch.diff"; cp "$SRC/demo.py" "$D/demo.py"
+cp /tmp/sv.$ID.$V.diff "$D/patch.diff"; [ "$SRC" = "$D" ] || cp "$SRC/demo.py" "$D/demo.py"
 python3 - "$SRC/meta.json" "$D/meta.json" "$T" "$R0" "$R1" <<'PY'
 import json,sys
 m=json.load(open(sys.argv[1]))
